@@ -38,6 +38,7 @@ func init() {
 	reg.Register("c12.eof", "C12", eofSweep)
 	reg.Register("c12.reentrant", "C12", reentrant)
 	reg.Register("c12.history", "C12", history)
+	reg.Register("c12.retryfaults", "C12", retryFaults)
 }
 
 var (
